@@ -22,8 +22,8 @@ def run(ctx):
     else:
         results = [generic.engine_run(ctx, "isolated", ["--seed", str(ctx.seed), "--n", "6000", "--rounds", "12", "--seq", "20000", "--handshake", "3000"], "main", timeout=1500)]
         for k, g in enumerate([2, 8, 64, 128], 1):
-            results.append(generic.engine_run(ctx, "isolated", ["--seed", str(ctx.seed * 1000 + k), "--goroutines", str(g), "--n", str(120000 // g),
-                                                                "--rounds", "8"], "extra%d" % k, timeout=1500))
+            results.append(generic.engine_run(ctx, "isolated", ["--seed", str(ctx.seed * 1000 + k), "--goroutines", str(g), "--n", str(min(120000 // g, 8000)),
+                                                                "--rounds", "6"], "extra%d" % k, timeout=1500))
         race_variant(ctx)
     bad = generic.proof_cov(ctx, extra_trusted=[
         "sync/atomic: Bool.Swap and Bool.Store are sequentially consistent atomic actions (the model's Step.swap / Step.store); defer runs on every exit "
